@@ -106,6 +106,9 @@ def _gen(seed: int, i: int, tier: str) -> dict:
             body.append(["sleep", rng.choice([0.5, 1, 59, 3600])])
         elif r < 0.82:
             body.append(["reenter"])
+        elif r < 0.835 and cfg["metric"]:
+            cfg["default_config"] = True
+            body.append(["other_gateway_imperial"])
         elif r < 0.87 and is2x:
             k = rng.choice(known)
             body.append(["line", G.wake_line(proto, k, rng.randint(0, 9))])
